@@ -193,6 +193,15 @@ pub trait Property: Sync {
     fn watchdog_s(&self) -> u64 {
         30
     }
+    /// Whether the thorough tier adds the coverage-guided search over choice vectors (C01 and C02
+    /// have byte-level libFuzzer targets of their own instead).
+    fn guided(&self) -> bool {
+        true
+    }
+    /// libFuzzer runs per worker in that stage.
+    fn guided_runs(&self) -> u64 {
+        150_000
+    }
     /// Called by the parent when a child died / hung on `case`; return the failure to report, or
     /// None if a hang is merely inconclusive for this property.
     fn classify_death(&self, how: &str, _case: &Case) -> Option<Failure> {
@@ -212,6 +221,23 @@ pub struct PanicInfo {
 
 thread_local! {
     static LAST_PANIC: RefCell<Option<PanicInfo>> = const { RefCell::new(None) };
+}
+
+/// Choice words of a coverage-guided input: big-endian 16-bit units, unit `x` becoming the word
+/// `x << 16 | x` (a trailing single byte `b` counts as the unit `b << 8`). The monotone maps of
+/// `Src` look at the high bits of a word, so one unit decides one choice.
+pub fn words_from_guided_bytes(data: &[u8]) -> Vec<u32> {
+    data.chunks(2)
+        .map(|c| {
+            let x = ((c[0] as u32) << 8) | c.get(1).copied().unwrap_or(0) as u32;
+            (x << 16) | x
+        })
+        .collect()
+}
+
+/// The closest coverage-guided input to a choice vector (keeps the high 16 bits of every word).
+pub fn guided_bytes_from_words(words: &[u32]) -> Vec<u8> {
+    words.iter().flat_map(|w| [(w >> 24) as u8, (w >> 16) as u8]).collect()
 }
 
 pub fn install_panic_hook() {
